@@ -32,11 +32,30 @@ from yamlpath.exceptions import YAMLPathException  # noqa: E402
 from yamlpath.wrappers import NodeCoords  # noqa: E402
 from ruamel.yaml.comments import CommentedSet  # noqa: E402
 
-NEW_VALUES = [9, 2.5, True, "new v", "zeta", 0, False, "b", None]
+NEW_VALUES = [9, 2.5, True, "new v", "zeta", 0, False, "b", None,
+              9007199254740993, -1700000000123456789]
 FORMATS = {"str": ["default", "dquote", "squote", "bare", "default"],
            "int": ["default", "int"], "float": ["default", "float"],
            "bool": ["default", "boolean"], "null": ["default"]}
 SIMPLE = set("abcdefghijklmnopqrstuvwxyzABCDEFGHIJKLMNOPQRSTUVWXYZ0123456789_")
+
+
+class SessionAbort(Exception):
+    """The session left the checkable domain (not a verdict either way)."""
+
+
+def ruamel_merge_limitation(ex):
+    """
+    ruamel.yaml 0.17.21 raises KeyError from CommentedMap.__delitem__ when
+    the map is the source of a YAML merge key elsewhere (its
+    update_key_value bookkeeping); plain ``del data[key]`` on a fresh load
+    fails the same way, so the delete cannot be blamed on yamlpath.
+    """
+    import traceback as tbm
+    if not isinstance(ex, KeyError):
+        return False
+    return any(frame.name == "update_key_value"
+               for frame in tbm.extract_tb(ex.__traceback__))
 
 
 class Violation(Exception):
@@ -307,8 +326,10 @@ def fmt_of(name):
 class Session:
     """One evolving document, one client, oracles after every step."""
 
-    def __init__(self, text, knobs=None):
+    def __init__(self, text, knobs=None, cli=False):
         self.knobs = knobs or {}
+        self.cli = cli
+        self.text = text
         doc, loaded = strict_load(text)
         if not loaded or doc is None:
             raise ValueError("generator produced an unloadable document")
@@ -347,6 +368,17 @@ class Session:
     def step(self, oper):
         self.stats["steps"] += 1
         kind = oper["op"]
+        if self.cli:
+            # every invocation is a new process: state lives in the file
+            self.doc, loaded = strict_load(self.text)
+            if not loaded:
+                raise Violation(self.stats["last_mutator"],
+                                "cli-file-no-longer-loads",
+                                {"yaml": self.text[:400]})
+            self.proc = Processor(QuietLog(), self.doc)
+            if kind in ("query", "reopen"):
+                self.stats["skipped"] += 1
+                return
         if kind == "set":
             self.do_set(oper)
         elif kind == "delete":
@@ -361,6 +393,57 @@ class Session:
             self.do_reopen()
         else:
             raise ValueError(kind)
+
+    # -- the same edit through the real yaml-set entry point ------------
+    TARGET = "/sim/w/doc.yaml"
+
+    def run_cli(self, argv, prop, what, expect_failure=False):
+        recipe = {"tool": "yaml-set", "argv": argv + [self.TARGET],
+                  "files": {self.TARGET: self.text}, "knobs": self.knobs,
+                  "stdin": "", "tty": True}
+        res = driver.execute(recipe)
+        after = res.fs.get(self.TARGET, b"").decode("utf-8", "replace")
+        if expect_failure:
+            return res, after
+        if res.exit != 0:
+            if res.traceback and res.traceback.startswith("KeyError") \
+                    and "<<:" in self.text:
+                raise SessionAbort("ruamel merge-source delete (cli)")
+            raise Violation(prop, "cli-exit-%s-on-matched-path" % res.exit,
+                            {"what": what, "argv": argv,
+                             "stderr": res.stderr[-300:],
+                             "traceback": res.traceback})
+        again, loaded = strict_load(after)
+        if not loaded:
+            raise Violation(prop, "reload-rejected-by-strict-loader",
+                            {"after": what, "yaml": after[:600]})
+        self.text = after
+        self.doc = again
+        self.proc = Processor(QuietLog(), again)
+        return res, after
+
+    @staticmethod
+    def cli_value(value, fmt):
+        """argv spelling of a native value (None is --null)."""
+        if value is None:
+            return ["-N"]
+        if isinstance(value, bool):
+            text = "true" if value else "false"
+        else:
+            text = str(value)
+        out = ["-a", text]
+        if fmt and fmt != "default":
+            out += ["-F", fmt]
+        return out
+
+    def cli_compare(self, prop, expected, what, detail):
+        want = model.typed_of(expected)
+        got = snapshot.typed(self.doc)
+        if want != got:
+            detail = dict(detail, diff=model.diff((want, (), ()),
+                                                  (got, (), ())),
+                          yaml=self.text[:500])
+            raise Violation(prop, what, detail)
 
     # -- C03 ------------------------------------------------------------
     def do_set(self, oper):
@@ -395,6 +478,16 @@ class Session:
             kwargs["value_format"] = fmt_of(oper["format"])
         self.stats["matched"] += 1
         self.stats["last_mutator"] = "C03"
+        if self.cli:
+            argv = ["-g", path] + self.cli_value(value, oper.get("format"))
+            if oper.get("mustexist", True):
+                argv.append("-m")
+            self.run_cli(argv, "C03", "set " + path)
+            self.cli_compare("C03", expected, "frame-or-value",
+                             {"path": path, "value": value, "via": "cli",
+                              "matched": [render(p, "/")
+                                          for p in positions]})
+            return
         try:
             self.proc.set_value(path, value, **kwargs)
         except YAMLPathException as ex:
@@ -440,6 +533,13 @@ class Session:
             return
         self.stats["matched"] += 1
         self.stats["last_mutator"] = "C04"
+        if self.cli:
+            self.run_cli(["-g", path, "-D"], "C04", "delete " + path)
+            self.cli_compare("C04", expected, "wrong-nodes-removed",
+                             {"path": path, "via": "cli",
+                              "matched": [render(p, "/")
+                                          for p in positions]})
+            return
         try:
             if oper.get("route") == "gathered":
                 self.proc.delete_gathered_nodes(coords)
@@ -447,6 +547,8 @@ class Session:
                 for _ in self.proc.delete_nodes(path):
                     pass
         except Exception as ex:  # pylint: disable=broad-except
+            if ruamel_merge_limitation(ex):
+                raise SessionAbort("ruamel merge-source delete") from ex
             raise Violation("C04", "delete-raised:" + type(ex).__name__,
                             {"path": path, "route": oper.get("route"),
                              "matched": [render(p, "/") for p in positions],
@@ -461,6 +563,16 @@ class Session:
         reload_check(self.doc, self.knobs, "C04", "delete " + path)
 
     def do_delete_root(self, oper):
+        if self.cli:
+            res, after = self.run_cli(["-g", "/", "-D"], "C04",
+                                      "delete root", expect_failure=True)
+            if res.exit == 0:
+                raise Violation("C04", "root-delete-not-refused",
+                                {"via": "cli"})
+            if after != self.text:
+                raise Violation("C04", "root-delete-changed-document",
+                                {"via": "cli"})
+            return
         pre = snapshot.full(self.doc)
         raised = None
         try:
@@ -544,8 +656,13 @@ class Session:
         pre_anchors = model.canon(tree)[1:]
         self.stats["matched"] += 1
         self.stats["last_mutator"] = "C09"
+        if self.cli:
+            self.run_cli(["-g", path] + self.cli_value(value, None), "C09",
+                         "create " + path)
         try:
-            if oper.get("via") == "get":
+            if self.cli:
+                pass
+            elif oper.get("via") == "get":
                 list(self.proc.get_nodes(path, mustexist=False,
                                          default_value=value))
             else:
@@ -591,7 +708,7 @@ class Session:
                 raise Violation("C09", "creation-changed-existing-node",
                                 {"path": path, "at": render(pos, "/"),
                                  "was": val, "now": post_nodes.get(pos)})
-        if model.canon(after)[1:] != pre_anchors:
+        if not self.cli and model.canon(after)[1:] != pre_anchors:
             raise Violation("C09", "creation-changed-anchors",
                             {"path": path})
         # (c) new positions lie on the created tail or are list padding
@@ -688,27 +805,30 @@ def gen_op(rng, tree, prop):
 
 
 def gen_session(rng, prop, tier):
+    merges = rng.random() < 0.1
     gen = gen_docs.DocGen(
         rng, sets=rng.random() < 0.2, anchors=rng.random() < 0.65,
-        nonascii=rng.random() < 0.1,
+        nonascii=rng.random() < 0.1, mergekeys=merges,
         max_nodes=rng.choice([4, 8, 14, 22, 30]),
         max_depth=rng.choice([2, 3, 4]))
     doc = gen.document()
-    flow = rng.random() < 0.08 and not gen.sets
+    flow = rng.random() < 0.08 and not gen.sets and not merges
     text = gen_docs.to_yaml(doc, style="flow" if flow else "block",
                             start=rng.random() < 0.7)
     steps = rng.choice([1, 2, 3, 4, 6, 8, 12])
     knobs = {"text_buf": rng.choice([1, 5, 32, 8192]),
              "write_through": rng.random() < 0.5}
     return {"document": text, "doc_model": doc, "knobs": knobs,
-            "nsteps": steps, "history": []}
+            "nsteps": steps, "history": [],
+            "cli": tier != "library-only" and rng.random() < 0.12}
 
 
 def run_session(seed, prop, shard, idx, tier):
     """Generate and execute one session; returns (recipe, outcome)."""
     rng = random.Random("%d/%s/%d/%d" % (seed, prop, shard, idx))
     recipe = gen_session(rng, prop, tier)
-    sess = Session(recipe["document"], recipe["knobs"])
+    sess = Session(recipe["document"], recipe["knobs"],
+                   cli=recipe.get("cli", False))
     viol = None
     if not sess.roundtrips:
         sess.stats["discarded"] = 1
@@ -726,12 +846,16 @@ def run_session(seed, prop, shard, idx, tier):
         except Violation as ex:
             viol = ex
             break
+        except SessionAbort:
+            sess.stats["aborted"] = 1
+            break
     return recipe, sess, viol
 
 
 def replay_session(recipe):
     """Re-execute a fixed history; returns the first Violation or None."""
-    sess = Session(recipe["document"], recipe.get("knobs"))
+    sess = Session(recipe["document"], recipe.get("knobs"),
+                   cli=recipe.get("cli", False))
     if not sess.roundtrips:
         return None
     for oper in recipe["history"]:
@@ -739,6 +863,8 @@ def replay_session(recipe):
             sess.step(oper)
         except Violation as ex:
             return ex
+        except SessionAbort:
+            return None
     return None
 
 
@@ -837,6 +963,8 @@ def shard_main(payload):
         agg["matched"] += sess.stats["matched"]
         agg["skipped"] += sess.stats["skipped"]
         agg["discarded"] += sess.stats.get("discarded", 0)
+        agg["cli_sessions"] = agg.get("cli_sessions", 0) + \
+            (1 if recipe.get("cli") else 0)
         agg["forms"] |= sess.stats["forms"]
         final = snapshot.full(sess.doc)
         digest = hashlib.sha256(repr((final, viol.cls if viol else None,
@@ -873,7 +1001,7 @@ def write_violation(prop, viol):
         "property": prop, "engine": "edit-session",
         "violation_class": viol["class"],
         "document": recipe["document"], "history": recipe["history"],
-        "knobs": recipe.get("knobs", {}),
+        "knobs": recipe.get("knobs", {}), "cli": recipe.get("cli", False),
         "detail": again.detail if again is not None else viol["detail"],
         "repo": driver.repo_state(),
     }
@@ -945,7 +1073,7 @@ def main():
         sys.exit(2)
     wall = time.time() - start
     agg = {"sessions": 0, "steps": 0, "matched": 0, "skipped": 0,
-           "discarded": 0}
+           "discarded": 0, "cli_sessions": 0}
     forms = set()
     behaviours = set()
     violations = []
@@ -954,7 +1082,7 @@ def main():
     other = {}
     for res in results:
         for key in agg:
-            agg[key] += res[key]
+            agg[key] += res.get(key, 0)
         forms |= res["forms"]
         behaviours |= res["behaviours"]
         violations.extend(res["violations"])
@@ -1025,6 +1153,8 @@ def main():
                     "form, mode/route/format, value type) tuples executed",
             "samples": samples[:5],
             "sessions": agg["sessions"],
+            "sessions_driven_through_the_real_yaml_set_main_on_SimFS":
+                agg["cli_sessions"],
             "steps_whose_path_matched_and_were_judged": agg["matched"],
             "steps_skipped_out_of_domain_or_unmatched": agg["skipped"],
             "sessions_discarded_document_does_not_roundtrip_unedited":
